@@ -699,13 +699,13 @@ func runC10(r *Report) {
 				r.Ob("R-C10-5", CallPos(l), !stored[flagVar(Arg(l, 0))], "a forwarding direction decides 'both finished' on the other direction's completion flag, not on the one it sets itself", r.P.FuncName(g), "consults-other-direction")
 			}
 		}
-		if nDir < 2 {
+		if nDir < 1 { // alarm below 40% of the 2 sites confirmed by hand
 			r.Fail("R-C10-5", bf.Pos(), fmt.Sprintf("only %d forwarding directions with completion flags found (2 confirmed by hand)", nDir), "runBidirectionalForward", "directions:floor")
 		}
 	}
 
 	// wrappers between the local connection and the frame stream are transparent
-	if nw := checkDelegatingWrappers(r, "R-C10-4", "internal/protocol/session", cnPkg); nw < 2 {
+	if nw := checkDelegatingWrappers(r, "R-C10-4", "internal/protocol/session", cnPkg); nw < 1 { // alarm below 40% of the 2 sites confirmed by hand
 		r.Fail("R-C10-4", 0, fmt.Sprintf("only %d delegating Read/Write wrappers found on the cross-node path (2 confirmed by hand: CountingReadWriter.Read/Write)", nw), "wrappers", "floor")
 	}
 	r.Floor("R-C10-4", 4, "delivery obligations")
